@@ -2,6 +2,7 @@ package main
 
 import (
 	"go/token"
+	"go/types"
 	"strings"
 
 	"golang.org/x/tools/go/ssa"
@@ -175,6 +176,20 @@ func runC11(c *Check) {
 				c.compareCodecPair("R5", "client", pr)
 			}
 		}
+	}
+	// ---- R6 saving is not skipped (or a modified flag is maintained by every mutator)
+	{
+		pers := map[*types.Var]bool{}
+		if f := c.P.Field("storage", "TxRepository", "unconfirmed"); f != nil {
+			pers[f] = true
+		}
+		for _, n := range []string{"time", "safe", "unsafe", "trusted"} {
+			if f := c.P.Field("storage", "unconfirmedTx", n); f != nil {
+				pers[f] = true
+			}
+		}
+		c.ruleSaveNotSkipped("R6", []string{"storage.(*TxRepository).save", "storage.(*TxRepository).Save"}, "storage", "TxRepository", pers,
+			map[string]bool{"storage.(*TxRepository).Load": true, "storage.NewTxRepository": true, "storage.newUnconfirmedTx": true, "storage.readUnconfirmedTx": true})
 	}
 }
 
